@@ -118,6 +118,16 @@ func simProbe(id int) {
 	atomic.AddUint64(&SimProbes[id], 1)
 }
 
+// simSlotOf returns the ring slot a buffer pointer refers to (-1: not a ring slot).
+func simSlotOf(pj *internalParsedJson, p *[indexSize]uint32) int {
+	for s := range pj.buffers {
+		if &pj.buffers[s] == p {
+			return s
+		}
+	}
+	return -1
+}
+
 // SimProbeSnapshot returns the current probe counters.
 func SimProbeSnapshot() (out [simProbeCount]uint64) {
 	for i := range out {
